@@ -118,6 +118,7 @@ def run_model_and_steps(chk, prop, tier, pkey=None):
             chk.add_tlc(res, "YkConc2 config %s: root border split + new interior root vs 2 readers (LinOK, Quiescent, Termination under WF)" % cfg)
             if not res.ok:
                 chk.error("YkConc2 model check %s did not pass (says nothing about the code): %s" % (cfg, tlc_tail(res, 12)))
+        run_steps2(chk, prop, tier, pk)
     exe = build("stepdrv", ["stepdrv.cpp"], sessions=16)
     init = {"A": "{1, 2}", "B": "{1, 2}", "C": "{1, 2}", "D": "{1}"}
     nruns = 40 if tier == "quick" else 400
@@ -149,6 +150,56 @@ def run_model_and_steps(chk, prop, tier, pkey=None):
             chk.cov["divergences"] = chk.cov.get("divergences", 0) + 1
             log("DIVERGENCE property=%s at=step-level program %s event %d: %s (the code's access sequence differs from YkConc; not a violation)" % (
                 prop, pg, at, lines[at - 1][:200] if 0 < at <= len(lines) else ""))
+
+
+STEP2 = [(15, 30, 2), (15, 15, 16), (31, 31, 30), (1, 2, 18), (17, 16, 17), (19, 18, 20)]
+
+
+def run_steps2(chk, prop, tier, pk):
+    """S: the root-border split of YkConc2 on the real code (fan-out 15) under random and PCT schedules; every logged access of
+    L, R, P, the root pointer and the root lock must be the enabled model step with the same value (TraceConc2); LinOK and
+    Quiescent are evaluated on every state of the accepted executions."""
+    import os, re
+    from common import tlc, tlc_tail, build, run, BUILD
+    from tracecheck import write_cfg
+    exe = build("stepdrv2", ["stepdrv2.cpp"], sessions=16)
+    nruns = 15 if tier == "quick" else 150
+    for (nk, g1, g2) in (STEP2[:4] if tier == "quick" else STEP2):
+        out = ""
+        bad = False
+        for sched in ("random", "pct"):
+            rc, o, err = run([exe, "new=%d" % nk, "get=%d,%d" % (g1, g2), "runs=%d" % nruns, "seed=%d" % seed(), "sched=" + sched], timeout=300)
+            lines = o.splitlines()
+            if lines and '"op":"fault"' in lines[-1]:
+                chk.violation("fault", "implementation faulted in step-level split run new=%d: %s" % (nk, lines[-1]), chk.save_replay("fault_step2_%d.ndjson" % nk, "\n".join(lines[-30:])))
+                bad = True
+                break
+            if rc != 0 or any('"e":"abort"' in l for l in lines[-2:]):
+                chk.notes.append("stepdrv2 new=%d did not complete: %s" % (nk, (lines[-1] if lines else err)[:200]))
+                bad = True
+                break
+            out += o
+        if bad:
+            continue
+        lines = out.splitlines()
+        tr = os.path.join(BUILD, "traces", "step2_%s_%d_%d_%d.ndjson" % (pk, nk, g1, g2))
+        open(tr, "w").write(out)
+        cfg = write_cfg(os.path.join(BUILD, "cfg", "tc2_%s_%d.cfg" % (pk, nk)), constants={"F": 15, "Readers": "{1, 2}", "NewKey": nk, "GetKeys": "<- GKEnv",
+                        "NO_SPLIT_BIT": "FALSE", "NO_FINAL_CHECK": "FALSE"}, invariants=["LinOK", "Quiescent"], constraint="Record")
+        res = tlc("TraceConc2", cfg, env={"TRACE": tr, "GK1": str(g1), "GK2": str(g2)}, workers=1, timeout=600, deque=True)
+        chk.add_tlc(res, "step-level conformance of the root border split, insert %d vs get %d, get %d (%d runs, %d events)" % (nk, g1, g2, 2 * nruns, len(lines)))
+        if res.ok:
+            chk.traces += 2 * nruns
+            chk.cov["step_events_conforming"] = chk.cov.get("step_events_conforming", 0) + len(lines)
+        elif res.violated in ("LinOK", "Quiescent"):
+            rp = chk.save_replay("step2_%d_%s.txt" % (nk, res.violated), tlc_tail(res, 60))
+            chk.violation("step-trace-" + res.violated, "%s violated on a real execution of the root border split (insert %d) followed step by step in YkConc2" % (res.violated, nk), rp)
+        else:
+            m = re.search(r'<<"STUCK", (\d+)', res.out)
+            at = int(m.group(1)) if m else 0
+            chk.cov["divergences"] = chk.cov.get("divergences", 0) + 1
+            log("DIVERGENCE property=%s at=step-level split insert %d event %d: %s (the code's access sequence differs from YkConc2; not a violation)" % (
+                prop, nk, at, lines[at - 1][:200] if 0 < at <= len(lines) else ""))
 
 
 def main(prop, tier):
